@@ -280,7 +280,8 @@ printf '%s\\n' "$out"
             cases.append(("xenv", "xenv %s %s" % (hexs(t), enc), None, (t, kv)))
             # well-formed twin with an expectation computed here, independently of the Lean model:
             # literals, ${NAME}/$NAME references and $(pkg-config words) each contribute exactly their value
-            kv2 = {"A": rng.choice(["/opt/a", "x", ""]), "PREFIX": rng.choice(["/usr", "/o p"]), "X_1": "-lz"}
+            # values may themselves look like references: os.Expand inserts them verbatim, never re-expands (theorem expandEnv_render)
+            kv2 = {"A": rng.choice(["/opt/a", "x", "", "$PREFIX", "${X_1}", "a$"]), "PREFIX": rng.choice(["/usr", "/o p", "$A"]), "X_1": "-lz"}
             txt, val, cfg = "", "", False
             for _ in range(rng.randint(1, 5)):
                 r = rng.random()
